@@ -132,7 +132,7 @@ func pkgGenInner(rng *Rng) pkgTree {
 	files := map[string]string{}
 	exist := map[string]bool{}
 	addPkgFiles := func(root string) {
-		for _, f := range []string{"lib/a.js", "lib/b.js", "lib/c.cjs", "lib/d.mjs", "index.js", "main.js", "feature/index.js", "feature/one/index.js", "deep/x/y.js", "deep/q/y.js", "data.json", "lib/one.js", "lib/one/two.js", "lib/internal/secret.js", "xAy.js", "lib/index.js", "file.js", "fileX.js", "src/index.js"} {
+		for _, f := range []string{"lib/a.js", "lib/b.js", "lib/c.cjs", "lib/d.mjs", "index.js", "main.js", "feature/index.js", "feature/one/index.js", "deep/x/y.js", "deep/q/y.js", "data.json", "lib/one.js", "lib/one/two.js", "lib/internal/secret.js", "xAy.js", "lib/index.js", "file.js", "fileX.js", "src/index.js", "lib/a b.js", "a b.js", "lib.js", "feature.js", "main/index.js"} {
 			c := "module.exports = " + fmt.Sprintf("%q", root+"/"+f) + ";\n"
 			if strings.HasSuffix(f, ".json") {
 				c = "{}"
@@ -256,7 +256,7 @@ func pkgGenInner(rng *Rng) pkgTree {
 				continue
 			}
 			sub := strings.TrimPrefix(k, "./")
-			for _, fill := range []string{"", "a", "one", "one/two", "x", "X", "internal/secret", "a.js", "%2e%2e", "..", "q"} {
+			for _, fill := range []string{"", "a", "one", "one/two", "x", "X", "internal/secret", "a.js", "%2e%2e", "..", "q", "a%20b.js", "a%20b"} {
 				s := strings.ReplaceAll(sub, "*", fill)
 				specs = append(specs, p+"/"+s)
 				if !strings.Contains(sub, "*") {
